@@ -122,7 +122,7 @@ impl Srv {
         let results = results_json(&mut peer, &rs);
         let mut srv = Srv { s, peer, clock, reqs: vec![], streams: vec![], connected: false, wire, clock_mode: 0 };
         srv.wire_record(&rs);
-        let ev = json!({"ev":"New","cfg":cfgj,"res":"ok","results":results,"probe":probe_json(&srv.s)});
+        let ev = json!({"ev":"New","cfg":cfgj,"res":"ok","results":results,"probe":probe_json(&srv.s),"clk":w(clock as u32)});
         (srv, ev)
     }
 
@@ -170,7 +170,7 @@ impl Srv {
             Err(p) => (format!("panic:{}", panic_msg(p)), vec![]),
         };
         self.note(&results);
-        json!({"ev":"In","i":desc,"n":bytes.len(),"res":res,"results":results,"probe":probe_json(&self.s)})
+        json!({"ev":"In","i":desc,"n":bytes.len(),"res":res,"results":results,"probe":probe_json(&self.s),"clk":w(self.clock as u32)})
     }
 
     pub fn call(&mut self, desc: Value, f: &mut dyn FnMut(&mut ServerSession) -> Result<Vec<ServerSessionResult>, String>) -> Value {
@@ -194,7 +194,7 @@ impl Srv {
         if desc["m"] == "accept" && res == "ok" {
             self.connected = true;
         }
-        json!({"ev":"Call","i":desc,"res":res,"results":results,"probe":probe_json(&self.s)})
+        json!({"ev":"Call","i":desc,"res":res,"results":results,"probe":probe_json(&self.s),"clk":w(self.clock as u32)})
     }
 }
 
